@@ -74,6 +74,10 @@ CLAIMED = {
          'The real PeriodicalExecutor (Add/addAndCheck/backgroundFlush/Flush/Wait/executeTasks/hasTasks/shallQuit/enterExecution) over the real bulkContainer and chunkContainer, with the caller (Adds, optional Flush, Wait), a concurrent producer, the background flusher and a clock/ticker environment goroutine under the engine scheduler; the virtual clock advances by one interval or by more than idleRound intervals per tick, so the flusher quitting and being restarted by a later Add is explored; optionally one task makes the callback panic. Asserted: no task reaches the callback twice; never an empty batch; when Wait returns every task the caller added before it has been executed (callback returned); after a final Wait every accepted task was executed exactly once; a panicking callback loses exactly its own batch.',
          'go/ssa translation, gosym scheduler with a CHESS-style preemption bound: all schedules with at most 1 preemption (a thorough-only entry uses 2 on the smallest configuration); threshold 1..2, 2 own + 1 concurrent task and 0..1 ticks in quick (0..2 own, 1..2 concurrent, 0..2 ticks in thorough); reflect.ValueOf/Kind/Len modelled natively; newTicker replaced by a harness ticker with a buffer of 1 (ticks dropped when full, like time.Ticker); a spy container forwards to the real one and records who removed each task. The data is concrete, so this is bounded systematic schedule exploration of the real code. One genuine defect is a known finding (Wait misses a batch that a concurrent producer has taken out of the container but not yet handed over); sqlx.BulkInserter is not covered.',
          'SSA interpretation under a preemption-bounded exhaustive scheduler (bounded schedule exploration of the real code)'),
+ 'C18': ('DESIGN.md §4 C18',
+         'Gate logic, arithmetic and codec kernels with ideal cryptography: (1) the real Authorize middleware + token.TokenParser (ParseToken/doParseToken key function/history) with the jwt library replaced by its contract at request.ParseFromRequest: over two consecutive requests with tokens signed by the current / previous / another / no secret, HMAC or not, time-valid or not, MapClaims or not, the handler runs iff the token verifies under the current or configured previous secret, else 401 and the handler is not called; the handler sees exactly the non-standard claims; only configured secrets are used as keys. (2) the real VerifySignature for every int64 timestamp (wrap-around included): invalid-header / wrong-time / pass / invalid-token exactly as the mathematical window and HMAC equality dictate, and the HMAC covers exactly (timestamp, method, path, raw query, body digest). (3) the real LimitContentSecurityHandler gate for every parse/verify outcome, strict and lenient. (4) the real pkcs5Padding/Unpadding, ECB CryptBlocks, EcbEncrypt/EcbDecrypt, LimitCryptionHandler/decryptBody/cryptionResponseWriter under an ideal block cipher (a permutation of fresh solver bytes) and an ideal base64: request bodies of 1..33 arbitrary bytes reach the handler decrypted and responses round-trip.',
+         'go/ssa translation, gosym, z3. Cryptographic strength (unforgeability of HMAC/JWT, AES, RSA) is NOT claimed: jwt parse+verify, HMAC-SHA256, SHA-256 body digest, AES and base64 are ideal stubs with their contracts; decimal parsing of the timestamp is an arbitrary int64 or an error; ParseContentSecurity (RSA decryption of the secret, header syntax) is replaced by an arbitrary outcome; now in {0, 1.7e9, 2^33} s and tolerance in {0,1,300,2^31} s (the timestamp itself ranges over all int64). The empty plaintext does not round-trip at codec level (handler never encrypts empty bodies; recorded in DESIGN). One genuine defect is a known finding (strict mode skips methods other than DELETE/GET/POST/PUT).',
+         'SSA symbolic execution + SMT (z3) with ideal-cryptography stubs; symbolic payload bytes and timestamps'),
 }
 
 NA = {
